@@ -215,6 +215,54 @@ theorem ifElse_sound {ca cc cb : Card} {na nb : Nat} {ms : List Nat}
       · exact γ_single hb h3)
     omega
 
+/-! ### statement clauses in one SELECT -/
+
+/-- `__infer_select_stmt` applies the LIMIT rule and then the OFFSET rule to the same statement; the
+    calculus nests `offset` inside `limit`.  Both orders give the same cardinality. -/
+theorem limit_offset_commute (c : Card) (n : Nat) :
+    limitConstCard (offsetCard c) n = offsetCard (limitConstCard c n) ∧
+      limitCard (offsetCard c) = offsetCard (limitCard c) := by
+  constructor
+  · unfold limitConstCard
+    by_cases h1 : n = 1
+    · subst h1; cases c <;> decide
+    · by_cases h0 : n = 0
+      · subst h0; cases c <;> decide
+      · have e1 : (n == 1) = false := by simpa using h1
+        have e0 : (n == 0) = false := by simpa using h0
+        simp only [e1, e0, Bool.false_eq_true, ↓reduceIte]
+  · cases c <;> decide
+
+/-- a SELECT with an OFFSET (and any static LIMIT, or none): the reported cardinality allows the
+    actual size and its lower bound is zero -/
+theorem offset_limit_sound {c : Card} {n : Nat} (k : Nat) (lim : Option Nat) (h : γ c n) :
+    γ (match lim with
+        | none => offsetCard c
+        | some l => limitConstCard (offsetCard c) l)
+      (match lim with
+        | none => n - k
+        | some l => min (n - k) l) ∧
+    (match lim with
+        | none => offsetCard c
+        | some l => limitConstCard (offsetCard c) l).canBeZero = true := by
+  have ho : γ (offsetCard c) (n - k) := zero_lower_sound h (Nat.sub_le _ _)
+  cases lim with
+  | none => exact ⟨ho, by cases c <;> decide⟩
+  | some l =>
+    simp only
+    unfold limitConstCard
+    by_cases h1 : l = 1
+    · subst h1
+      exact ⟨limit_one_sound ho, by cases c <;> decide⟩
+    · by_cases h0 : l = 0
+      · subst h0
+        refine ⟨?_, by cases c <;> decide⟩
+        simpa using zero_lower_sound ho (Nat.zero_le _)
+      · have e1 : (l == 1) = false := by simpa using h1
+        have e0 : (l == 0) = false := by simpa using h0
+        simp only [e1, e0, Bool.false_eq_true, ↓reduceIte]
+        exact ⟨limit_const_sound ho (by omega), by cases c <;> decide⟩
+
 /-! ### calls -/
 
 /-- how many alternatives an argument contributes to the iteration of a call -/
